@@ -252,6 +252,33 @@ class Body:
                     st.append(s)
         return False
 
+    def incoming_edge_conds(self, bid):
+        """Disjunction of the switch edges that lead *directly* (through goto/fall-through blocks only) into
+        block `bid`: list of (discr expr, values taken). Used where a short-circuit `a || b` merges two edges."""
+        out = []
+        P = self.preds()
+        seen = set()
+        st = [(bid, None)]
+        while st:
+            x, _ = st.pop()
+            for p in P.get(x, []):
+                if (p, x) in seen:
+                    continue
+                seen.add((p, x))
+                t = self.blocks[p]['term']
+                if t['k'] == 'switch':
+                    vals = frozenset(v for v, tgt in t['vals'] if tgt == x)
+                    if t['otherwise'] == x:
+                        excl = frozenset(v for v, tgt in t['vals'] if tgt != x)
+                        out.append((self.expr(t['discr']), ('else', excl)))
+                    elif vals:
+                        out.append((self.expr(t['discr']), vals))
+                elif t['k'] in ('goto', 'drop') or (t['k'] == 'call' and not self.blocks[p]['stmts'] and False):
+                    st.append((p, None))
+                else:
+                    out.append((('top', 'unconditional:%s' % t['k']), frozenset()))
+        return out
+
     def cond_text(self, bid):
         """rendered conditions, e.g. ['discr(x)=1', '(a Gt b)=else!{0}'] (line-number free)"""
         out = []
